@@ -14,7 +14,31 @@ def main():
     for name, d, meta in selftest.variants(None):
         kinds[name] = meta.get('kind', 'break')
         titles[name] = (meta.get('title') or '').replace('|', '/')
-    m = selftest.matrix(PIDS, ('break', 'twin'))
+    cache_file = os.environ.get('SA_KILLTABLE_FROM')
+    if cache_file:
+        # merge mode: results of an earlier full run (its dump) are reused for every variant except those matching
+        # SA_KILLTABLE_RERUN (a regular expression) and those the dump does not know; DESIGN.md must say so when this is used
+        cached = json.load(open(cache_file))
+        rer = re.compile(os.environ.get('SA_KILLTABLE_RERUN', r'^$'))
+        m = {}
+        todo = []
+        for name in kinds:
+            if rer.search(name) or any('%s %s' % (name, p) not in cached for p in PIDS):
+                todo.append(name)
+            else:
+                for p in PIDS:
+                    m[(name, p)] = cached['%s %s' % (name, p)]
+        print('kill table: %d variants re-run, %d taken from %s' % (len(todo), len(kinds) - len(todo), cache_file))
+        import tempfile, shutil
+        tmpd = tempfile.mkdtemp(prefix='sa-kt-')
+        try:
+            for name in todo:
+                os.symlink(os.path.join(VERIF, 'seeded', name), os.path.join(tmpd, name))
+            m.update(selftest.matrix(PIDS, ('break', 'twin'), base=tmpd))
+        finally:
+            shutil.rmtree(tmpd, ignore_errors=True)
+    else:
+        m = selftest.matrix(PIDS, ('break', 'twin'))
     rows_b, rows_t = [], []
     stats = {'breaks': 0, 'own': 0, 'sibling': [], 'exit2': [], 'silent': []}
     if os.environ.get('SA_KILLTABLE_DUMP'):
